@@ -7,17 +7,47 @@ import glob, json, os, re, shutil, subprocess, sys, tempfile
 ENV = dict(os.environ, GOFLAGS="-mod=mod", GOPROXY="off", GOSUMDB="off", GOTOOLCHAIN="local")
 
 def sh(cmd, cwd):
-    p = subprocess.run(cmd, cwd=cwd, env=ENV, shell=True, stdout=subprocess.PIPE, stderr=subprocess.STDOUT, text=True, timeout=1800)
+    p = subprocess.run(cmd, cwd=cwd, env=ENV, shell=True, stdout=subprocess.PIPE, stderr=subprocess.STDOUT, text=True, errors="replace", timeout=1800)
     return p.returncode, p.stdout
+
+def main_program(d):
+    demo = os.path.join(d, "demo.go")
+    wt = tempfile.mkdtemp(prefix="confirm-", dir="/tmp")
+    os.rmdir(wt)
+    out = {"dir": d, "demo_cmd": "go run demo.go <worktree>"}
+    try:
+        rc, o = sh("git -C /repo worktree add -q --detach %s HEAD" % wt, "/")
+        rc, o = sh("git apply %s" % os.path.join(d, "patch.diff"), wt)
+        out["patch_applies"] = rc == 0
+        rc, o = sh("go build ./... && go test -vet=off -count=1 ./...", wt)
+        out["suite_passes_with_patch"] = rc == 0
+        rc, o = sh("go run %s %s" % (demo, wt), wt)
+        out["demo_fails_with_patch"] = rc != 0
+        sh("git checkout -- . && git clean -fdq", wt)
+        rc, o = sh("go run %s %s" % (demo, wt), wt)
+        out["demo_passes_without_patch"] = rc == 0
+        out["builds_with_hooks"] = True
+    finally:
+        sh("git -C /repo worktree remove --force %s" % wt, "/")
+        shutil.rmtree(wt, ignore_errors=True)
+    out["confirmed"] = all(out.get(k) for k in ("patch_applies", "suite_passes_with_patch", "demo_fails_with_patch", "demo_passes_without_patch"))
+    print(json.dumps(out, indent=1))
+
 
 def main():
     d = os.path.abspath(sys.argv[1])
-    demo = sorted(glob.glob(os.path.join(d, "*_test.go")))[0]
+    demos = sorted(glob.glob(os.path.join(d, "*_test.go")))
+    if not demos:
+        return main_program(d)
+    demo = demos[0]
     src = open(demo).read()
     m = re.search(r"go test([^\n]*)", src)
     args = m.group(1).strip() if m else "-count=1 ."
-    args = args.replace("cd /tmp/seed-C14 &&", "")
+    args = re.sub(r"cd /tmp/\S+ &&", "", args)
     sub = "update-wordlist" if "update-wordlist" in args or "package main" in src else "."
+    m2 = re.search(r"\./(demo\w*)/", args)
+    if m2:
+        sub = m2.group(1)
     wt = tempfile.mkdtemp(prefix="confirm-", dir="/tmp")
     os.rmdir(wt)
     out = {"dir": d, "demo_cmd": "go test " + args}
@@ -32,6 +62,7 @@ def main():
             out["suite_output"] = o[-1500:]
         rc2, o2 = sh("go build -tags verif ./... ", wt)
         out["builds_with_hooks"] = rc2 == 0
+        os.makedirs(os.path.join(wt, sub), exist_ok=True)
         dst = os.path.join(wt, sub, "zz_seed_demo_test.go")
         shutil.copy(demo, dst)
         rc, o = sh("go test " + args, wt)
@@ -39,6 +70,7 @@ def main():
         out["demo_output_with_patch"] = o[-800:]
         os.remove(dst)
         sh("git checkout -- . && git clean -fdq", wt)
+        os.makedirs(os.path.join(wt, sub), exist_ok=True)
         shutil.copy(demo, dst)
         rc, o = sh("go test " + args, wt)
         out["demo_passes_without_patch"] = rc == 0
